@@ -119,6 +119,19 @@ WithLayer(x, v) == Layer("with", <<>>, << <<x, v>> >>)
 
 ListOf(v) == IF v.k = "l" THEN v.v ELSE <<>>
 
+\* Assignment tags (optional node kind "asg", C03): a tag that BINDS a variable instead of opening a block
+\* - {% firstof e "dflt" as x %} (also {% now .. as x %}, {% cycle .. as x %}, simple tags with `as`) - binds x
+\* for the REST OF THE ENCLOSING BODY.  Placed between a {% component %} tag and a {% fill %} that follows it,
+\* it is a "variable bound between the component tag and the fill" like a {% with %} around that fill: visible
+\* inside the fills that follow it (both modes; in isolated mode re-binding an otherwise bound name is the
+\* same unspecified zone as for {% with %}, see WithCollision).  firstof: the first true value, else the literal.
+AsgValue(m, vars) == LET v == EvalExpr(m.e, vars) IN IF Truthy(v) THEN Str(Show(v)) ELSE Str(m.dflt)
+RECURSIVE HasAsg(_)
+HasAsg(nodes) == \E i \in 1..Len(nodes) :
+                    \/ nodes[i].t = "asg"
+                    \/ (nodes[i].t \in {"with", "for", "if"} /\ HasAsg(nodes[i].a))
+                    \/ (nodes[i].t = "if" /\ HasAsg(nodes[i].b))
+
 RECURSIVE Collect(_, _, _, _)
 RECURSIVE CollectFor(_, _, _, _, _)
 Collect(nodes, i, env, btw) ==
@@ -131,7 +144,9 @@ Collect(nodes, i, env, btw) ==
                      [] m.t = "with" -> Collect(m.a, 1, env, Append(btw, WithLayer(m.x, EvalExpr(m.e, vars))))
                      [] m.t = "for"  -> CollectFor(m, ListOf(Lookup(vars, m.xs)), 1, env, btw)
                      [] OTHER        -> <<>>
-       IN this \o Collect(nodes, i + 1, env, btw)
+           \* an assignment tag extends the between-bindings of the fills that FOLLOW it in this body
+           btw2 == IF m.t = "asg" THEN Append(btw, WithLayer(m.x, AsgValue(m, vars))) ELSE btw
+       IN this \o Collect(nodes, i + 1, env, btw2)
 CollectFor(m, items, j, env, btw) ==
   IF j > Len(items) THEN <<>>
   ELSE Collect(m.a, 1, env, Append(btw, ForLayer(m.x, items[j], j))) \o CollectFor(m, items, j + 1, env, btw)
@@ -287,6 +302,9 @@ EvalComp(n, env, fuel) ==
                            !.queue = IF env.ckey THEN env.queue ELSE inst,
                            !.own = [has |-> TRUE, inst |-> inst, fills |-> fills2]]
   IN IF n.body = "fills" /\ ~NoDupNames(fills) THEN Fail("TemplateSyntaxError")   \* documented: duplicate fill names
+     \* a body without any fill counts as default slot content, assignment tags included: they then run where the
+     \* slot is rendered, and how far such a binding reaches there is not determined (zone)
+     ELSE IF n.body = "fills" /\ HasAsg(n.a) /\ Collect(n.a, 1, env, <<>>) = <<>> THEN Zone
      ELSE IF cd.err # "" THEN Fail(cd.err)
      ELSE IF Dev(env, "NestedRootCallbackKeyError") /\ env.ckey /\ env.croot # env.queue THEN Fail("KeyError")
      ELSE LET r == After(hook, n.c, Join(Res(<<>>, "", FALSE, << <<inst, n.c>> >>), EvalSeq(def.tpl, 1, env2, fuel - 1))) IN
@@ -341,6 +359,7 @@ EvalNode(n, env, fuel) ==
                            key == ToString(env.at) IN
                        [r EXCEPT !.tops = <<key>>, !.elems = << <<n.id, key>> >> \o @]
     [] n.t = "fill" -> Fail("TemplateSyntaxError")       \* a {% fill %} rendered outside fill collection
+    [] n.t = "asg"  -> Zone                              \* only specified between a component tag and its fills
     [] n.t = "slot" -> EvalSlot(n, env, fuel)
     [] n.t = "comp" -> EvalComp(n, env, fuel)
     [] n.t = "provide" ->
